@@ -80,6 +80,8 @@ def r1_teardown(ctx: Context) -> None:
         ctx.check("session" not in c.methods, "R1.teardown", f"{c.name}.session:override", f"{c.name} uses the base session()", f"{c.name} overrides session(): teardown discipline must be re-checked", c.methods.get("session"), None)
     # calibrate uses the context manager around the whole loop
     v = CalibrateView(prog)
+    if v.unreadable:
+        raise AnalysisError(v.unreadable)
     ctx.check(len(v.session) == 1, "R1.teardown", "Calibrator.calibrate:with-session", "the batch loop runs inside `with self.scheduler.session():`", f"{len(v.session)} session() calls in calibrate", v.cal, v.cal.node)
     if v.session:
         w = getattr(v.session[0], "_parent", None)
